@@ -26,7 +26,7 @@ import oal_sexp
 from sexp import Sym, dumps, loads
 
 PROP = 'C04'
-RULE = ('type-directed random OAL programs (quick: 3000 programs, <= 25 generated statements, nesting <= 3; thorough: 40000, '
+RULE = ('type-directed random OAL programs (quick: 2500 programs, <= 25 generated statements, nesting <= 3; thorough: 40000, '
         '<= 60, nesting <= 5) over a fixed 4-class schema (1:1, 1:M, reflexive with phrases, association class) on random '
         'initial populations (0-6 instances per class, random links, loaded as SQL text) with random keyword arguments; every '
         '8th program belongs to the arithmetic family (half of its integer literals beyond 2**53, up to 2**70, both signs; '
@@ -353,7 +353,7 @@ def attach_expectations(ctx, cases):
 
 
 def generate(ctx, arithmetic_only=False):
-    n = ctx.pick(3000, 40000)
+    n = ctx.pick(2500, 40000)
     max_stmts = ctx.pick(25, 60)
     max_depth = ctx.pick(3, 5)
     batch = []
